@@ -182,7 +182,7 @@ class Workspace:
             tgt = os.path.join(self.repo, append_to)
             if not os.path.exists(tgt):
                 raise Inconclusive("source file %s no longer exists" % append_to)
-            modname = "__verif_" + re.sub(r"[^A-Za-z0-9]", "_", os.path.basename(src)[:-3]).lower()
+            modname = modname_of(src)
             with open(tgt, "a") as f:
                 f.write('\n#[cfg(kani)] #[path = "%s"] pub(crate) mod %s;\n' % (dst, modname))
             # `//@@ crate-feature: <name>`: an unstable library feature the harness itself needs (to
@@ -254,6 +254,18 @@ def kani_base(ws, crate):
             "--target-dir", ws.target]
 
 
+def module_path(append_to):
+    """vm/src/api/mod.rs -> api ; parser/src/token.rs -> token"""
+    rel = append_to.split("/src/", 1)[1]
+    rel = re.sub(r"\.rs$", "", rel)
+    rel = re.sub(r"(^|/)mod$", "", rel)
+    return rel.strip("/").replace("/", "::")
+
+
+def modname_of(path):
+    return "__verif_" + re.sub(r"[^A-Za-z0-9]", "_", os.path.basename(path)[:-3]).lower()
+
+
 def find_metadata(ws, crate, names):
     """Newest kani-metadata.json of `crate` that lists all wanted harnesses."""
     best = None
@@ -312,23 +324,30 @@ def run_group(ws, crate, group, logfile, tier, _second_pass=False, _uw=None, _so
     filt = []
     for n in names:
         filt += ["--harness", n]
-    # 1. code generation only
-    rc = run(kani_base(ws, crate) + filt + ["--only-codegen"], ws.repo, 3600, logfile)
-    if rc != 0:
-        raise Inconclusive("kani build failed for %s (see %s)" % (crate, logfile))
-    md = find_metadata(ws, crate, names)
-    if md is None:
-        raise Inconclusive("kani metadata not found for harnesses %s" % names)
-    mdpath, hs = md
-    outdir = os.path.dirname(mdpath)
-    # every name must match exactly one harness
-    for h in group:
-        h.pretty = hs[h.name]["pretty_name"]
-        h.goto = os.path.join(outdir, os.path.basename(hs[h.name]["goto_file"]))
+    patterns = group[0].unwindset
+    if patterns:
+        # 1. code generation only: needed to look up loop ids for the unwindset patterns
+        rc = run(kani_base(ws, crate) + filt + ["--only-codegen"], ws.repo, 3600, logfile)
+        if rc != 0:
+            raise Inconclusive("kani build failed for %s (see %s)" % (crate, logfile))
+        md = find_metadata(ws, crate, names)
+        if md is None:
+            raise Inconclusive("kani metadata not found for harnesses %s" % names)
+        mdpath, hs = md
+        outdir = os.path.dirname(mdpath)
+        # every name must match exactly one harness
+        for h in group:
+            h.pretty = hs[h.name]["pretty_name"]
+            h.goto = os.path.join(outdir, os.path.basename(hs[h.name]["goto_file"]))
+    else:
+        # the fully qualified name follows from where the harness module was appended; a wrong
+        # guess cannot pass silently: kani then runs no harness of that name and the missing result
+        # file is reported as inconclusive
+        for h in group:
+            h.pretty = "%s::%s::%s" % (module_path(h.append_to), modname_of(h.file), h.name)
     # 2. resolve unwindset patterns against the loops of the generated program (sampled on a few
     #    harnesses; a harness that reaches a matching loop the sample did not is re-run below)
     uw = {}
-    patterns = group[0].unwindset
     if patterns:
         uw = _uw if _uw is not None else resolve_unwindset(group[:4], patterns)
         for h in group:
@@ -353,7 +372,15 @@ def run_group(ws, crate, group, logfile, tier, _second_pass=False, _uw=None, _so
     if uw:
         cmd += ["--cbmc-args", "--unwindset", ",".join("%s:%d" % kv for kv in sorted(uw.items()))]
     waves = (len(group) + jobs - 1) // jobs
+    log_from = os.path.getsize(logfile)
     rc = run(cmd, ws.repo, cap * waves + 900, logfile, mem_kb=mem_kb)
+    if rc != 0:
+        with open(logfile, errors="replace") as lf:
+            lf.seek(log_from)
+            out = lf.read()
+        if re.search(r"error: could not compile|Failed to execute cargo|error\[E\d+\]", out) and \
+                "Checking harness" not in out:
+            raise Inconclusive("kani build failed for %s (see %s)" % (crate, logfile))
     # 4. collect
     exp = {}
     try:
@@ -521,6 +548,21 @@ def collect_harnesses(prop, ws):
         except Exception:
             pass
     # COMMON__*.rs: support code (stubs) shared between properties, installed for every run
+    # coverage guard: every construct a generator could not serve must be expected
+    try:
+        expected = set(json.load(open(os.path.join(VERIF, "expected_uncovered.json")))["expected"].get(prop, []))
+    except Exception:
+        expected = None
+    if expected is not None:
+        new = []
+        for u in uncovered:
+            k = u.get("primitive") or u.get("item") or u.get("table") or u.get("entry") or u.get("instruction") \
+                or json.dumps(u, sort_keys=True)
+            if k not in expected:
+                new.append("%s (%s)" % (k, u.get("reason", "")))
+        if new:
+            raise Inconclusive("constructs not served by the harness generator and not listed in "
+                               "expected_uncovered.json: " + "; ".join(new)[:600])
     paths = sorted(glob.glob(os.path.join(HARNESS_DIR, "COMMON__*.rs"))) + \
         sorted(glob.glob(os.path.join(HARNESS_DIR, prop + "__*.rs"))) + \
         sorted(glob.glob(os.path.join(gen_out, prop + "__*.rs")))
@@ -710,4 +752,13 @@ if __name__ == "__main__":
     signal.signal(signal.SIGTERM, _on_term)
     signal.signal(signal.SIGINT, _on_term)
     sys.path.insert(0, os.path.dirname(os.path.abspath(__file__)))
-    sys.exit(main())
+    try:
+        code = main()
+    except SystemExit:
+        raise
+    except BaseException as ex:  # an internal error of the driver is never a verdict
+        import traceback
+        traceback.print_exc()
+        print("INCONCLUSIVE internal error in the check driver: %r" % (ex,))
+        code = 2
+    sys.exit(code)
